@@ -72,11 +72,13 @@ def _worker(job):
                     checks=stats.checks, checks_unsat=stats.checks_unsat,
                     inconclusive=stats.inconclusive,
                     covers=sorted(stats.covers), samples=stats.samples,
+                    counters=dict(stats.counters),
                     cex=cex, rest=rest, error=None)
     except BaseException:
         return dict(h=hname, paths=0, aborted=0, queries=0, solver_s=0.0,
                     checks=0, checks_unsat=0, inconclusive=0, covers=[],
-                    samples=[], cex=[], rest=[], error=traceback.format_exc())
+                    counters={}, samples=[], cex=[], rest=[],
+                    error=traceback.format_exc())
 
 
 # ------------------------------------------------------------ main side
@@ -122,13 +124,14 @@ def match_known(known, pid, key):
 def run_property(pid, tier, seed, jobs, only=None, verbose=True):
     t0 = time.time()
     os.environ["DISCOPY_VERIF"] = "1"
+    os.environ["VERIF_TIER"] = tier
     mod, hs = load_harnesses(pid, tier)
     if only:
         hs = {k: v for k, v in hs.items() if k in only}
     agg = {name: dict(paths=0, aborted=0, queries=0, solver_s=0.0, checks=0,
                       checks_unsat=0, inconclusive=0, covers=set(),
                       samples=[], cex=[], exhausted=False, errors=[],
-                      wall_s=0.0, started=time.time())
+                      counters={}, wall_s=0.0, started=time.time())
            for name in hs}
     ctx = mp.get_context("fork")
     pool = ctx.Pool(jobs, maxtasksperchild=50)
@@ -166,6 +169,8 @@ def run_property(pid, tier, seed, jobs, only=None, verbose=True):
                   "checks_unsat", "inconclusive"):
             a[k] += r[k]
         a["covers"] |= set(r["covers"])
+        for ck, cv in r.get("counters", {}).items():
+            a["counters"][ck] = a["counters"].get(ck, 0) + cv
         for s in r["samples"]:
             if len(a["samples"]) < 4:
                 a["samples"].append(s)
@@ -278,6 +283,9 @@ def finish(res):
         if a["inconclusive"]:
             inconclusive.append("%s: %d solver unknowns" % (
                 name, a["inconclusive"]))
+        if a["counters"].get("cvc5_disagrees"):
+            inconclusive.append("%s: cvc5 disagrees with z3 on %d queries" % (
+                name, a["counters"]["cvc5_disagrees"]))
         if not a["exhausted"] and not a["cex"]:
             inconclusive.append("%s: path space not exhausted" % name)
         missing = [c for c in hs[name].covers if c not in a["covers"]]
@@ -338,6 +346,7 @@ def finish(res):
                 outcome_classes=sorted(a["covers"]),
                 required_classes=hs[name].covers,
                 exhausted=a["exhausted"], wall_s=round(a["wall_s"], 1),
+                counters=a["counters"],
                 candidates=len(a["cex"])) for name, a in agg.items()],
             known_findings_matched=sorted({k["key"]
                                            for k, _ in res["known_hits"]}),
